@@ -361,7 +361,12 @@ def auto_unit(fb, tier, log):
     hdrs = repo_headers()
     key = _sha(hdrs + [EXTRACT, os.path.join(VERIF, "drivers", "inst.cpp"), os.path.join(VERIF, "rules", "autodrive.py")], "auto1")
     d = os.path.join(CACHE, "facts", "auto_" + key)
-    src = autodrive.synthesize(missing, VERIF, d)
+    allp = {}
+    for u in fb.units:
+        if u.name.startswith("inst_"):
+            for p_ in u.patterns:
+                allp[p_["loc"]] = p_
+    src = autodrive.synthesize(missing, VERIF, d, list(allp.values()))
     if src is None:
         return None
     path = os.path.join(d, "inst_auto.json")
